@@ -297,3 +297,68 @@ eq(['C04'], 'reorder-guard-terms', GWF,
 eq(['C04'], 'rename-username', GWF,
    "    username = job.settings.robot\n\n    participants",
    "    username = job.settings.robot\n    LOG.debug('x')\n\n    participants")
+
+# ------------------------------------------------------------------- C12
+mut('C12', 'dependencies-after-clone', GWF,
+    "    check_dependencies(job)\n\n    # Now we're actually going to work on the repository. Let's clone it.\n    clone_git_repo(job)\n",
+    "    # Now we're actually going to work on the repository. Let's clone it.\n    clone_git_repo(job)\n    check_dependencies(job)\n")
+mut('C12', 'dependencies-after-branches', GWF,
+    "    check_dependencies(job)\n\n    # Now",
+    "    # Now")
+mut('C12', 'greetings-before-early-checks', GWF,
+    "    early_checks(job)\n    send_greetings(job)\n",
+    "    send_greetings(job)\n    early_checks(job)\n")
+mut('C12', 'notmyjob-templated', EXC,
+    "class NotMyJob(SilentException):", "class NotMyJob(InitMessage):")
+mut('C12', 'user-branch-producer', BRANCHES,
+    "class UserBranch(GWFBranch):\n    pattern = r'^user/(?P<label>.+)$'\n",
+    "class UserBranch(GWFBranch):\n    pattern = r'^user/(?P<label>.+)$'\n"
+    "    cascade_producer = True\n")
+mut('C12', 'release-consumer', BRANCHES,
+    "              r'(?P<version>(?P<major>\\d+)\\.(?P<minor>\\d+))$'\n\n\nclass FeatureBranch",
+    "              r'(?P<version>(?P<major>\\d+)\\.(?P<minor>\\d+))$'\n"
+    "    cascade_consumer = True\n\n\nclass FeatureBranch")
+mut('C12', 'merged-accepted', GWF,
+    "    if status not in ('OPEN', 'DECLINED'):",
+    "    if status not in ('OPEN', 'DECLINED', 'MERGED'):")
+mut('C12', 'dep-count-gt', GWF,
+    "    if len(after_prs) != len(merged):",
+    "    if len(after_prs) > len(merged) + len(declined):")
+mut('C12', 'dep-declined-counts', GWF,
+    "        merged = [p for p in prs if p.status == 'MERGED']",
+    "        merged = [p for p in prs if p.status != 'OPEN']")
+mut('C12', 'wait-ignored-for-admin', GWF,
+    "    if job.settings.wait:\n        raise messages.NothingToDo('wait option is set')",
+    "    if job.settings.wait and not job.settings.approve:\n"
+    "        raise messages.NothingToDo('wait option is set')")
+mut('C12', 'producer-or-consumer', GWF,
+    "    if not is_cascade_producer(src) or not is_cascade_consumer(dst):",
+    "    if not is_cascade_producer(src) and not is_cascade_consumer(dst):")
+mut('C12', 'consumer-on-src', GWF,
+    "not is_cascade_consumer(dst):", "not is_cascade_consumer(src):")
+mut('C12', 'comments-after-dependencies', GWF,
+    "    handle_comments(job)\n    LOG.debug(\"Running with active options: %r\", job.active_options)\n\n    check_dependencies(job)\n",
+    "    check_dependencies(job)\n    handle_comments(job)\n")
+mut('C12', 'unknown-dep-swallowed', GWF,
+    "        except Exception as err:\n            raise messages.IncorrectPullRequestNumber(\n                pr_id=pr_id, active_options=job.active_options\n            ) from err\n",
+    "        except Exception as err:\n            LOG.debug(err)\n            continue\n")
+mut('C12', 'non-integer-dep-recorded', COMMANDS,
+    "    try:\n        int(pr_id)\n    except ValueError:\n        return\n\n    job.settings.after_pull_request.add(pr_id)",
+    "    job.settings.after_pull_request.add(pr_id)")
+mut('C12', 'command-creates-branches', COMMANDS,
+    "    raise StatusReport(status={}, active_options=job.active_options)",
+    "    from .integration import create_integration_branches\n"
+    "    list(create_integration_branches(job))\n"
+    "    raise StatusReport(status={}, active_options=job.active_options)")
+mut('C12', 'early-checks-pushes', GWF,
+    "    src, dst = job.pull_request.src_branch, job.pull_request.dst_branch\n",
+    "    src, dst = job.pull_request.src_branch, job.pull_request.dst_branch\n"
+    "    push(job.git.repo)\n")
+EQUIVALENTS.append({
+    'pids': ['C12', 'C11', 'C06', 'C03', 'C04'],
+    'name': 'extract-gates-helper', 'edits': [
+        {'path': GWF, 'old': "    early_checks(job)\n    send_greetings(job)\n",
+         'new': "    _pre(job)\n    send_greetings(job)\n"},
+        {'path': GWF, 'old': "def early_checks(job):\n",
+         'new': "def _pre(job):\n    early_checks(job)\n\n\n"
+                "def early_checks(job):\n"}]})
